@@ -210,7 +210,8 @@ func reifyMap(opts *options, to reflect.Value, from *Config, validators []valida
 		return nil
 	}
 
-	for k, value := range fields {
+	for _, k := range from.fields.sortedKeys() {
+		value := fields[k]
 		opts.activeFields = newFieldSet(parentFields)
 		key := reflect.ValueOf(k)
 
